@@ -165,12 +165,10 @@ Fixpoint key_values (sp : json) (doc : option json) (ks : list str) (default : o
   | k :: r => bind (key_value sp doc k default) (fun v => bind (key_values sp doc r default) (fun vs => Ok (v :: vs)))
   end.
 
-Definition gb_order_keys (keys : list str) : list str :=
-  filter (fun k => negb (gb_is_doc_key k)) keys ++ filter gb_is_doc_key keys.
-
+(* the values of a tuple label are in the order of the keys *)
 Definition gb_label (single : bool) (keys : list str) (default : option json) (j : job) : result json :=
   if single then key_value (j_sp j) (j_doc j) (hd [] keys) default
-  else bind (key_values (j_sp j) (j_doc j) (gb_order_keys keys) default) (fun vs => Ok (JArr vs)).
+  else bind (key_values (j_sp j) (j_doc j) keys default) (fun vs => Ok (JArr vs)).
 
 (* a label component read from a job document that is a list or mapping is a synced collection
    object; Python cannot order those *)
